@@ -26,7 +26,7 @@ EXPLANATION = (
     "on data: a boundary equal to 0.0 is a value)."
 )
 NOT_DECIDED = "monotonicity of the fitted step function on actual boundaries (follows from the above given sortedness; the numeric boundaries are runtime values)"
-FLOORS = {"R-neighbour-merge": 4, "R-boundaries-sorted-unique-inf": 4, "R-leader-is-max": 1, "R-interval-lookup": 2, "R-total-cover": 3, "R-categorical-order": 4, "R-contiguous-groups": 12, "R-index-kept": 1, "R-value-truthiness": 1, "R-qualitative-map": 1, "R-label-alignment": 2, "R-readonly-queries": 3}
+FLOORS = {"R-neighbour-merge": 4, "R-boundaries-sorted-unique-inf": 4, "R-leader-is-max": 1, "R-interval-lookup": 2, "R-total-cover": 3, "R-categorical-order": 5, "R-comutation": 6, "R-contiguous-groups": 12, "R-index-kept": 1, "R-value-truthiness": 1, "R-qualitative-map": 1, "R-label-alignment": 2, "R-readonly-queries": 3}
 
 
 def rule_apply_combination(ctx):
@@ -44,6 +44,9 @@ def check(ctx):
     c04.rule_interval_lookup(ctx)
     c05.rule_total_cover(ctx)
     quant.check_categorical_order(ctx, "R-categorical-order")
+    from .grouped import check_comutation
+
+    check_comutation(ctx, "R-comutation")  # a user ranking goes through the GroupedList constructor: kept as given
     carver.check_enum_bounds(ctx, "R-contiguous-groups")
     rule_apply_combination(ctx)
     c07.rule_index_kept(ctx)
